@@ -23,6 +23,7 @@ type PropSpec struct {
 	Funcs    []string // short function names
 	Include  []string // other properties whose functions are included
 	Kinds    map[string]bool
+	Labels   map[string]bool // ensures/invariant labels additionally owned (safety-relevant facts of callees)
 	Lemmas   []string
 	Bounded  []string
 	Packages []string
@@ -53,6 +54,13 @@ func loadPropSpec(verif, id string, seen map[string]bool) (*PropSpec, error) {
 		case strings.HasPrefix(l, "kinds:"):
 			for _, k := range strings.Fields(strings.TrimPrefix(l, "kinds:")) {
 				ps.Kinds[k] = true
+			}
+		case strings.HasPrefix(l, "labels:"):
+			if ps.Labels == nil {
+				ps.Labels = map[string]bool{}
+			}
+			for _, k := range strings.Fields(strings.TrimPrefix(l, "labels:")) {
+				ps.Labels[k] = true
 			}
 		case strings.HasPrefix(l, "include:"):
 			ps.Include = append(ps.Include, strings.Fields(strings.TrimPrefix(l, "include:"))...)
@@ -214,7 +222,10 @@ func runCheck(repo, verif, prop, tier, keep string, claim bool) int {
 		}
 		for _, r := range fr.results {
 			if !ps.Kinds[r.Ob.Kind] {
-				continue
+				lab := r.Ob.Name[strings.LastIndex(r.Ob.Name, ":")+1:]
+				if !(ps.Labels[lab] && (r.Ob.Kind == "ensures" || r.Ob.Kind == "invariant")) {
+					continue
+				}
 			}
 			if _, dup := all[r.Ob.Name]; dup {
 				continue
